@@ -379,6 +379,24 @@ pub fn run(ctx: &Ctx) -> Report {
                 progs.push(ops);
             }
         }
+        // the two integrity attributes of one builder under every ordered pair of credentials of the alphabet
+        // (short- and long-term): each is computed with the credentials of its own call, also when the builder
+        // was cloned / owned / forked in between (seed C11-o: a per-builder cache of the derived long-term key)
+        let n_creds = prog::creds_alphabet().len() as u8;
+        for c1 in 0..n_creds {
+            for c2 in 0..n_creds {
+                for mid in [vec![], vec![Op::IntoOwned], vec![Op::Clone], vec![Op::Fork, Op::Swap]] {
+                    for pre in [vec![], vec![Op::Typed(Kind::Username, b"user".to_vec())]] {
+                        let mut ops = pre.clone();
+                        ops.push(Op::Sha1(c1));
+                        ops.extend(mid.clone());
+                        ops.push(Op::Sha256(c2));
+                        ops.push(Op::Fp);
+                        progs.push(ops);
+                    }
+                }
+            }
+        }
         for ops in progs {
             let case = Prog { class: 0, method: 1, tid: TID, ops }.to_case("builder_seq");
             crate::props::judge_guarded(judge, &case, &mut acc);
@@ -391,7 +409,7 @@ pub fn run(ctx: &Ctx) -> Report {
         states,
         transitions,
         exhaustive: true,
-        rule: "all sequences up to the depth over {add typed SOFTWARE/USERNAME/PRIORITY/XOR-MAPPED-ADDRESS, add raw 0xff00/0x7f00/SOFTWARE's code, add SHA-1 integrity, add SHA-256 integrity, add fingerprint, into_owned, clone, measure, clone_from, fork (keep a sibling clone alive; both are looked at after every step), swap (carry on with the sibling)} x {request, error}, and to depth 6 (7) over the attributes of the long-term credential flow {USERNAME, USERHASH, REALM, NONCE, PASSWORD-ALGORITHM typed SHA-256 / raw MD5, PASSWORD-ALGORITHMS, integrity under long- and short-term credentials, fingerprint} x {request, success}; states deduplicated on reference builder state + the builder's complete Debug snapshot; plus, for every 16-bit type code x, five fixed programs that add x as a raw attribute before / after typed attributes, add x ^ 0x40, seal in every way, try every sealing step again on the sealed builder and try x again; plus long builders: 0..=40 (48) distinct filler attributes followed by every tail of up to three operations over {SHA-1, SHA-256, fingerprint, a new raw / typed attribute, into_owned, clone, a repeat of the first / middle / last filler}; distinct_nontrivial = unique states + sweep programs".into(),
+        rule: "all sequences up to the depth over {add typed SOFTWARE/USERNAME/PRIORITY/XOR-MAPPED-ADDRESS, add raw 0xff00/0x7f00/SOFTWARE's code, add SHA-1 integrity, add SHA-256 integrity, add fingerprint, into_owned, clone, measure, clone_from, fork (keep a sibling clone alive; both are looked at after every step), swap (carry on with the sibling)} x {request, error}, and to depth 6 (7) over the attributes of the long-term credential flow {USERNAME, USERHASH, REALM, NONCE, PASSWORD-ALGORITHM typed SHA-256 / raw MD5, PASSWORD-ALGORITHMS, integrity under long- and short-term credentials, fingerprint} x {request, success}; states deduplicated on reference builder state + the builder's complete Debug snapshot; plus, for every 16-bit type code x, five fixed programs that add x as a raw attribute before / after typed attributes, add x ^ 0x40, seal in every way, try every sealing step again on the sealed builder and try x again; plus long builders: 0..=40 (48) distinct filler attributes followed by every tail of up to three operations over {SHA-1, SHA-256, fingerprint, a new raw / typed attribute, into_owned, clone, a repeat of the first / middle / last filler}; plus SHA-1 then SHA-256 integrity under every ordered pair of the nine credentials, with into_owned / clone / fork+swap in between; distinct_nontrivial = unique states + sweep programs".into(),
         bounds: json!({"depth": depth, "alphabet": 12, "levels": levels}),
         assumptions: vec!["a snapshot difference after a refused operation is an evidence note only (the successor is a new state whose futures are explored)".into()],
         caps_hit: caps,
